@@ -40,6 +40,7 @@ def run(ctx, rep):
     # P7: the hop count written under any parameter vector names the same chain entry when it is read back
     from . import sib
     sib.m4(F, rep, "P7")
+    sib.resets(F, rep, "P9")
 
 
 def _written_values(F, wb, t):
